@@ -4,6 +4,7 @@ import (
 	"verif/checks/c01"
 	"verif/checks/c04"
 	"verif/checks/c05"
+	"verif/checks/c13"
 	"verif/checks/c14"
 	"verif/checks/c15"
 	"verif/checks/c19"
@@ -13,6 +14,7 @@ func init() {
 	Checks["C01"] = c01.Check
 	Checks["C04"] = c04.Check
 	Checks["C05"] = c05.Check
+	Checks["C13"] = c13.Check
 	Checks["C14"] = c14.Check
 	Checks["C15"] = c15.Check
 	Checks["C19"] = c19.Check
